@@ -245,7 +245,7 @@ def eval_inputs(name, items, nfiles):
                 layout.append((tag, i, oracle is not None, model is not None, meta))
         jobs.append(("%s_%d" % (name, fi), "\n".join(body) + "\n"))
         layouts.append(layout)
-    outs = coq_eval_many(jobs, timeout=1500)
+    outs = coq_eval_many(jobs, timeout=3000)
     res = {}
     for (fname, body), layout, (ok, out) in zip(jobs, layouts, outs):
         ans = parse_bools(out) if ok else []
@@ -653,7 +653,7 @@ def run(rep, tier, seed):
             if str(r2.results.get(("GLR", 0), "")).startswith("FOREST"):
                 too_large.add((r2.case.meta["gi"], r2.case.meta["i"]))
         items = [(gi, d, [(i, w, pr) for i, w, pr in ins if (gi, i) not in too_large]) for gi, d, ins in items]
-    ev = eval_inputs("c03", items, nfiles=NCPU * 2)
+    ev = eval_inputs("c03", items, nfiles=max(NCPU * 2, sum(len(x[2]) for x in items) // 150))
     T.append(time.time())
     stats = dict(oracle_skipped=0, uncertified=0, model_checked=0)
     fnd = Findings()
